@@ -183,4 +183,52 @@ theorem lost_update_counterexample :
     fundPool (fun _ => 0) [(0, 1000000), (1, 777)] 1 = 777 := by
   simp [fundPoolLostUpdate, fundPool, upd]
 
+/-! The community pool holds decimal amounts; below `pool d` is read in units of 10⁻¹⁸ and a redirected burn of `a` whole
+units adds `a · 10¹⁸` — the fraction the pool held (reward remainders) stays. -/
+
+def dec18p : Nat := 10 ^ 18
+
+/-- whole coins as pool units -/
+def scale (coins : List (Nat × Nat)) : List (Nat × Nat) := coins.map fun c => (c.1, c.2 * dec18p)
+
+theorem foldl_scale (l : List (Nat × Nat)) (d x : Nat) :
+    ((scale l).filter (·.1 == d)).foldl (fun s c => s + c.2) (x * dec18p) =
+      (l.filter (·.1 == d)).foldl (fun s c => s + c.2) x * dec18p := by
+  induction l generalizing x with
+  | nil => rfl
+  | cons c rest ih =>
+    by_cases h : (c.1 == d) = true
+    · simp only [scale, List.map_cons, List.filter_cons, h, if_true, List.foldl_cons]
+      rw [show x * dec18p + c.2 * dec18p = (x + c.2) * dec18p by rw [Nat.add_mul]]
+      exact ih _
+    · simp only [scale, List.map_cons, List.filter_cons, h]
+      exact ih _
+
+theorem amountOf_scale (coins : List (Nat × Nat)) (d : Nat) : amountOf (scale coins) d = amountOf coins d * dec18p := by
+  have := foldl_scale coins d 0
+  simpa [amountOf] using this
+
+/-- **a redirected burn adds whole units and keeps the pool's fraction**: after crediting the coins, the pool's whole part
+    grew by exactly the burned amount and its fractional part is what it was -/
+theorem fundPool_keeps_fraction (coins : List (Nat × Nat)) (pool : Nat → Nat) (d : Nat) :
+    fundPool pool (scale coins) d / dec18p = pool d / dec18p + amountOf coins d ∧
+    fundPool pool (scale coins) d % dec18p = pool d % dec18p := by
+  rw [fundPool_exact, amountOf_scale]
+  have hp : 0 < dec18p := by decide
+  constructor
+  · rw [Nat.add_mul_div_right _ _ hp]
+  · rw [Nat.add_mul_mod_self_right]
+
+/-- the shape that drops the fraction: the pool is truncated to whole units before the coins are added -/
+def fundPoolTruncating (pool : Nat → Nat) (coins : List (Nat × Nat)) (d : Nat) : Nat :=
+  (pool d / dec18p + amountOf coins d) * dec18p
+
+/-- a pool of 10.5 units and a burn of 1000: the truncating shape ends at 1010, half a unit short of 1010.5 -/
+theorem truncating_counterexample :
+    fundPoolTruncating (fun _ => 105 * 10 ^ 17) [(0, 1000)] 0 = 1010 * 10 ^ 18 ∧
+    fundPool (fun _ => 105 * 10 ^ 17) (scale [(0, 1000)]) 0 = 10105 * 10 ^ 17 := by
+  constructor
+  · simp [fundPoolTruncating, amountOf, dec18p]
+  · simp [fundPool, scale, upd, dec18p]
+
 end Haqq.Ledger
